@@ -265,6 +265,22 @@ func runC10(h *H) {
 			// answers: a NOOP round trip closes the operation
 			return c.Noop().Wait()
 		}, moveFallback},
+		// the same fallback with all three commands succeeding: Wait may report success only
+		// once the COPY, the STORE and the EXPUNGE have all been completed by the server
+		{"move-fallback-ok", func(c *imapclient.Client) error {
+			_, err := c.Move(imap.SeqSetNum(1, 2), "Dest").Wait()
+			return err
+		}, generic},
+		{"move-fallback-store-refused", func(c *imapclient.Client) error {
+			_, err := c.Move(imap.SeqSetNum(1, 2), "Dest").Wait()
+			return wantNo(err)
+		}, func(p *scriptedPeer, c *peerCmd) {
+			if c.Name == "STORE" {
+				p.Send(c.Tag + " NO [NOPERM] flags are read-only\r\n")
+				return
+			}
+			generic(p, c)
+		}},
 		{"noop", func(c *imapclient.Client) error { return c.Noop().Wait() }, generic},
 		{"fetch-many-items-collect", func(c *imapclient.Client) error {
 			_, err := c.Fetch(imap.SeqSetNum(1, 2), &imap.FetchOptions{UID: true}).Collect()
@@ -543,6 +559,7 @@ func runC10(h *H) {
 	// model correspondence on the completion bookkeeping: pipelined commands with the reply cut
 	// between / inside lines
 	c10ModelCases(h, corr)
+	c10StartTLS(h)
 }
 
 var c10FullLen = map[string]int{}
